@@ -1,4 +1,4 @@
-/- Kernel obligation: `bfChk` (Proofs/C11_NumDefs.lean) on the 16-bit patterns 0x7000..0x7fff. -/
+/- Kernel obligation: `bfChk` (Proofs/C11_NumDefs.lean) on the 16-bit patterns 0x1c00..0x1fff. -/
 import BitstringModel.Proofs.C11_NumDefs
 namespace BM.C11
 theorem bfChunk_07 : bfChunkOk 7 = true := by decide +kernel
